@@ -477,7 +477,7 @@ package index
 // free span that reaches the end of the scanned file.
 //@ func (index *Index) reapIndexRecords(ctx context.Context, fileNum uint32, indexPath string) (stale bool, err error)  property C02 C04 C07 C11
 //@   preserves index
-//@   modifies ctx.$done, fp(IO)
+//@   modifies ctx.$done
 //@   ghost var gB (Array Int Bool) = nopos()[0 := true]
 //@   ghost var gpos int = 0
 //@   ghost var gsz int = 0
@@ -501,7 +501,7 @@ package index
 //@   assert at before call (*os.File).WriteAt#1: @mark-only-unreferenced !gbusy && gprefix < len(index.buckets) && (gpos < index.maxFileSize ==> index.buckets[gprefix] != ibpos(fileNum, index.maxFileSize, gpos + 4))
 //@   assert at before call (*os.File).WriteAt#1: @mark-keeps-chain gB[$a2] && $a2 + 4 + freeAtSize == gpos + 4 + gsz && len($a1) == 4 && le32(bytes($a1), 0) == freeAtSize + 2147483648 && freeAtSize < 2147483648
 //@   assert at before call (*os.File).Truncate#0: @truncate-free-tail gB[$a1] && $a1 > busyAt && $a1 + 4 + freeAtSize == pos
-//@   ensures @stale-means-empty stale ==> err == nil && (gtrunc == 0 || event("call:(*os.File).ReadAt") == 0)
+//@   internal ensures @stale-means-empty stale ==> err == nil && (gtrunc == 0 || event("call:(*os.File).ReadAt") == 0)
 //@   loop 0 invariant @cursor pos >= 0 && pos <= file.$size + 2147483648 && file.$size < (1 << 62) && gB[pos] && file != nil && len(sizeBuf) == 4 && fresh(sizeBuf) && (baseof(scratch) == 0 || fresh(scratch))
 //@   loop 0 invariant @spans 0 - 1 <= busyAt && busyAt < pos && 0 - 1 <= freeAt && freeAt < pos && freeAtSize < 2147483648 && (pos == 0 ==> freeAt == 0 - 1 && busyAt == 0 - 1)
 //@   loop 0 invariant @free-span freeAt > busyAt ==> gB[freeAt] && freeAt + 4 + freeAtSize == pos
